@@ -3,7 +3,7 @@ PROP = {
     "coq_targets": ["Properties/C33.vo", "Extract/C33Extract.vo"],
     "properties_file": "Properties/C33.v",
     "theorems": ["C33_no_panic", "C33_hellos_after_up", "C33_quiet_otherwise", "C33_hello_output",
-                 "C33_sender_lock_under_update_blocks"],
+                 "C33_sender_lock_under_update_blocks", "C33_stays_subscribed", "C33_unsubscribe_in_stop_loses_link_up"],
     "allowed_axioms": [],
     "harness": "c33",
     "modelrun": {"name": "c33", "extracted": ["c33_model"], "driver": "ocaml/c33/c33_run.ml"},
